@@ -77,7 +77,7 @@ def tlc(module, cfg, tag, workers=None, env=None, simulate=None, timeout=3000, h
     workers = workers or NCPU
     meta = os.path.join(OUT, '_tlc', '%s-%d-%d' % (tag, os.getpid(), int(time.time() * 1000) % 100000000))
     os.makedirs(meta, exist_ok=True)
-    cmd = ['timeout', str(timeout), 'java', '-XX:+UseParallelGC', '-Xmx' + heap,
+    cmd = ['timeout', str(timeout), 'java', '-XX:+UseParallelGC', '-Xss512m', '-Xmx' + heap,
            '-cp', '/opt/veriftools/tla/tla2tools.jar:/opt/veriftools/tla/CommunityModules-deps.jar',
            'tlc2.TLC', '-workers', str(workers), '-metadir', meta, '-noGenerateSpecTE',
            '-config', cfg]
